@@ -328,6 +328,20 @@ def drive_densify(mon: Monitor, rng: random.Random, n: int) -> None:
             pass
 
 
+def drive_fine(mon: Monitor, rng: random.Random) -> None:
+    """Very fine densification of long edges: a 185 km scene footprint at 50 m needs 3700 points per side."""
+    import shapely.geometry as sg
+    from odc.geo import geom as G
+
+    for k, pts_per_edge in enumerate([1500, 4000, 1100, 2500, 9000, 1001]):
+        L = rng.choice([185_000.0, 3.9, 1e6])
+        ox_, oy_ = rng.uniform(-1e5, 1e5), rng.uniform(-1e5, 1e5)
+        shp = [sg.LineString([(ox_, oy_), (ox_ + 0.6 * L, oy_ + 0.8 * L)]), sg.Polygon([(ox_, oy_), (ox_ + L, oy_ + 0.05 * L), (ox_ + 0.9 * L, oy_ + L), (ox_ - 0.1 * L, oy_ + 0.9 * L)]),
+               sg.LinearRing([(ox_, oy_), (ox_ + L, oy_), (ox_, oy_ + 0.3 * L)])][k % 3]
+        call(G.Geometry(shp, "EPSG:32633").segmented, L / pts_per_edge)
+        mon.obs["fine_densifications_over_1000_points_per_edge"] += 1
+
+
 def drive_to_crs(mon: Monitor, rng: random.Random, n: int) -> None:
     from odc.geo import geom as G
 
@@ -439,6 +453,7 @@ def run(mon: Monitor, tier: str, seed: int, shard: int, nshards: int) -> None:
         rng = random.Random(seed * 1000 + shard + 7)
         q = tier == "quick"
         drive_densify(mon, rng, 5000 if q else 60000)
+        drive_fine(mon, rng)
         drive_to_crs(mon, rng, 2500 if q else 40000)
         drive_lookalikes(mon, rng, 150 if q else 2500)
         drive_indirect(mon, rng, 40 if q else 500)
